@@ -502,6 +502,8 @@ def main():
 
     print("%s tier=%s seed=%d: theorems %d/%d, cases %d (model-evaluated %d, disagreements %d), oracle failures %d (known %d), %.0fs" % (
         pid, tier, seed, discharged, obligations, len(cases), evaluated, len(mismatches), len(oracle_fail), len(oracle_fail) - len(new_fail), time.time() - t0))
+    for w, dtl in broken[:6]:
+        print("NO-LONGER-CHECKS %s: %s" % (w, re.sub(r"\s+", " ", dtl)[:500]))
     if replay:
         for c in cases:
             print("replayed case %s\n  impl:   %s\n  oracle: %s %s\n  model agrees: %s" % (c["id"], c["impl_show"][:2000], "ok" if c["oracle_ok"] else "FAIL", c["oracle_why"], agree.get(c["id"])))
